@@ -417,9 +417,9 @@ func (w *world) doWS(r *hx.Rand, kind, feats string, payload string) Obs {
 	}
 	c.n++
 	// a small pool of ids, reused on the kept connection: an id is free again once its operation has
-	// completed (both protocols), so completed ids recur — every second operation repeats the id
-	// of the one just completed, the others rotate
-	id := fmt.Sprintf("op%d", (c.n/2)%3)
+	// completed (both protocols), so completed ids recur — every second operation (starting with
+	// the second on a connection) repeats the id of the one just completed, the others rotate
+	id := fmt.Sprintf("op%d", ((c.n+1)/2)%3)
 	if err := c.conn.WriteMessage(websocket.TextMessage, []byte(wsMessage(r, kind, id, payload))); err != nil {
 		c.close()
 		return Obs{Resp: "write error: " + err.Error()}
